@@ -1,0 +1,6 @@
+//go:build verif
+
+package pool
+
+// VerifValueBufferSize is read by the verification generator (hx gen). Add-only, build tag verif.
+const VerifValueBufferSize = valueBufferSize
